@@ -98,6 +98,9 @@ func (e *Engine) functionsFor(p string) []*ssa.Function {
 		}
 	}
 	for _, f := range e.allFuncs {
+		if f.Synthetic != "" {
+			continue
+		}
 		fc := e.contractOf(f)
 		if fc != nil && contractMentions(fc, p) && !fc.Trusted {
 			want[f] = true
@@ -106,6 +109,9 @@ func (e *Engine) functionsFor(p string) []*ssa.Function {
 	if len(preTagged) > 0 {
 		for _, f := range e.allFuncs {
 			if fc := e.contractOf(f); fc != nil && fc.Trusted {
+				continue
+			}
+			if f.Synthetic != "" {
 				continue
 			}
 			for _, b := range f.Blocks {
@@ -120,6 +126,15 @@ func (e *Engine) functionsFor(p string) []*ssa.Function {
 							for _, r := range fc.Requires {
 								if hasProp(r.Props, p) {
 									want[f] = true
+								}
+							}
+						}
+						for _, g := range e.implementations(c) {
+							if fc := e.contractOf(g); fc != nil {
+								for _, r := range fc.Requires {
+									if hasProp(r.Props, p) {
+										want[f] = true
+									}
 								}
 							}
 						}
@@ -213,9 +228,13 @@ func runContractProperty(e *Engine, res *checkResult, timeout int, two bool, wor
 	p := res.prop
 	funcs := e.functionsFor(p)
 	var obls []*Obligation
+	inlinedAll := map[string]bool{}
 	for _, f := range funcs {
-		ft := e.verifyFunc(f, e.contractOf(f), false)
-		res.funcs = append(res.funcs, shortFuncName(f))
+	  for _, ft := range e.verifyFuncAll(f, e.contractOf(f), false) {
+		for k := range ft.inlined {
+			inlinedAll[k] = true
+		}
+		res.funcs = appendUniq(res.funcs, shortFuncName(f))
 		for _, n := range ft.notes {
 			res.notes = append(res.notes, shortFuncName(f)+": "+n)
 		}
@@ -233,8 +252,23 @@ func runContractProperty(e *Engine, res *checkResult, timeout int, two bool, wor
 				obls = append(obls, o)
 			}
 		}
+	  }
 	}
 	obls = append(obls, e.lemmaObligations(p)...)
+	obls = append(obls, e.scanObligations(p)...)
+	// anonymous functions that call a function with a P-tagged precondition
+	// must have been reached by inlining (they are not verified on their own)
+	for _, f := range e.allFuncs {
+		if f.Parent() == nil || e.contractOf(f) != nil || inlinedAll[f.String()] {
+			continue
+		}
+		if e.callsTaggedPre(f, p) {
+			ft := e.newFT(nil)
+			obls = append(obls, &Obligation{Name: "scan/closure-covered/" + shortFuncName(f), Kind: "scan", Props: []string{p}, Func: shortFuncName(f),
+				Pos: posString(e.fset, f.Pos()), Text: "closure with relevant calls is verified through inlining", Goal: "false", Reach: "true", ft: ft,
+				SrcLine: "closure is never inlined into a verified function: give it a contract"})
+		}
+	}
 	discharge(obls, "", timeout, two, work, stats)
 	res.obls = append(res.obls, obls...)
 }
@@ -506,3 +540,38 @@ func cmdReplay(args []string) int {
 }
 
 var propRunners = map[string]func(*Engine, *checkResult, int, bool, string, *solveStats){}
+
+func (e *Engine) callsTaggedPre(f *ssa.Function, p string) bool {
+	for _, b := range f.Blocks {
+		for _, ins := range b.Instrs {
+			ci, ok := ins.(ssa.CallInstruction)
+			if !ok {
+				continue
+			}
+			c := ci.Common()
+			var fcs []*FuncContract
+			if c.IsInvoke() {
+				if fc := e.ifaceContract(c); fc != nil {
+					fcs = append(fcs, fc)
+				}
+				for _, g := range e.implementations(c) {
+					if fc := e.contractOf(g); fc != nil {
+						fcs = append(fcs, fc)
+					}
+				}
+			} else if g := c.StaticCallee(); g != nil {
+				if fc := e.contractOf(g); fc != nil {
+					fcs = append(fcs, fc)
+				}
+			}
+			for _, fc := range fcs {
+				for _, r := range fc.Requires {
+					if hasProp(r.Props, p) {
+						return true
+					}
+				}
+			}
+		}
+	}
+	return false
+}
